@@ -1254,3 +1254,67 @@ M("benign-terminal-set-as-complement", "ALL", "", "state.py",
                     }""", """                    and op.status not in {OperationStatus.STARTED, OperationStatus.PENDING, OperationStatus.READY}""", expect="silent")
 M("benign-to-millis-via-utctimetuple", "ALL", "", "lambda_service.py",
   "        return int(dt.timestamp() * 1000) if dt else None", "        return int(round(dt.timestamp(), 3) * 1000) if dt else None", expect="silent")
+
+# ----------------------------------------------------------------------------- round 4
+M("c02-error-codec-drops-falsy", "C02", "R4.error-codec-keeps-set-fields", "lambda_service.py",
+  """        if self.message is not None:
+            result["ErrorMessage"] = self.message""", """        if self.message:
+            result["ErrorMessage"] = self.message""")
+M("c09-zero-percentage-is-unset", "C09", "R3.threshold-zero-is-not-unset", "concurrency/models.py",
+  "            if self.tolerated_failure_percentage is not None and self.total_tasks > 0:", "            if self.tolerated_failure_percentage and self.total_tasks > 0:")
+M("c14-heartbeat-capped-by-timeout", "C14", "R1.create-callback", "operation/callback.py",
+  "                heartbeat_timeout_seconds=self.config.heartbeat_timeout_seconds,",
+  "                heartbeat_timeout_seconds=min(self.config.heartbeat_timeout_seconds, self.config.timeout_seconds),")
+M("c03-sync-producer-returns-on-foreign-flag", "C03", "R2.put-then-wait-same-event", "state.py",
+  """            if self._checkpointing_failed.is_set():
+                self._checkpointing_failed.wait()
+
+            # Wait for completion - will raise BackgroundThreadError if background thread fails
+            completion_event.wait()""",
+  """            while not (completion_event.is_set() or self._checkpointing_failed.is_set()):
+                completion_event.wait(timeout=0.1)
+            completion_event.wait(timeout=0)""")
+M("c19-release-fast-path-outside-mutex", "C19", "R1.lock-discipline", "threading.py",
+  '''        """Release lock. This makes the lock available for the next queued up waiter."""
+        with self._lock:''', '''        """Release lock. This makes the lock available for the next queued up waiter."""
+        if len(self._waiters) == 1:
+            self._waiters.popleft()
+            return
+        with self._lock:''')
+M("c20-step-options-zero-omitted", "C20", "R3.empty-dict-is-not-absence", "lambda_service.py",
+  """    def to_dict(self) -> MutableMapping[str, Any]:
+        return {
+            "NextAttemptDelaySeconds": self.next_attempt_delay_seconds,
+        }""", """    def to_dict(self) -> MutableMapping[str, Any]:
+        if not self.next_attempt_delay_seconds:
+            return {}
+        return {
+            "NextAttemptDelaySeconds": self.next_attempt_delay_seconds,
+        }""")
+M("benign-sync-producer-polls-own-event", "ALL", "", "state.py",
+  """            # Wait for completion - will raise BackgroundThreadError if background thread fails
+            completion_event.wait()""",
+  """            # Wait for completion - will raise BackgroundThreadError if background thread fails
+            while not completion_event.is_set():
+                if self._checkpointing_failed.is_set():
+                    self._checkpointing_failed.wait()
+                completion_event.wait(timeout=0.5)
+            completion_event.wait()""", expect="silent")
+M("benign-error-codec-dict-comprehension", "ALL", "", "lambda_service.py",
+  """        result: MutableMapping[str, Any] = {}
+        if self.message is not None:
+            result["ErrorMessage"] = self.message
+        if self.type is not None:
+            result["ErrorType"] = self.type
+        if self.data is not None:
+            result["ErrorData"] = self.data
+        if self.stack_trace is not None:
+            result["StackTrace"] = self.stack_trace
+        return result""",
+  """        fields: MutableMapping[str, Any] = {
+            "ErrorMessage": self.message,
+            "ErrorType": self.type,
+            "ErrorData": self.data,
+            "StackTrace": self.stack_trace,
+        }
+        return {key: value for key, value in fields.items() if value is not None}""", expect="silent")
